@@ -320,7 +320,7 @@ func run(r *core.Run) int {
 			forced = append(forced, &Case{Kind: "forced", Sc: sc, Order: order})
 		}
 	}
-	core.Parallel(len(cases), func(i int) { execCase(r, cases[i]) })
+	r.Parallel(len(cases), func(i int) { execCase(r, cases[i]) })
 	// forced schedules read the process-wide goroutine dump: one at a time
 	for _, c := range forced {
 		execCase(r, c)
